@@ -133,6 +133,9 @@ Emit ==
         [] st.fam = "inits" ->
              /\ \A pert \in {"none", "truncate", "overwrite"} : P(LoadCase(<<Imp("", 13)>>, <<"good", st.k>>, FALSE, pert, <<"initializer_" \o st.k, pert>>))
              /\ P(LoadCase(<<Imp("", 12)>>, <<st.k>>, FALSE, "none", <<"initializer_" \o st.k, "and_bad_opset">>))
+             \* the malformed initializer first / in the middle: an error must not be forgotten when later initializers decode
+             /\ P(LoadCase(<<Imp("", 13)>>, <<st.k, "good">>, FALSE, "none", <<"initializer_" \o st.k, "first_of_two">>))
+             /\ P(LoadCase(<<Imp("", 13)>>, <<"good", st.k, "good", "good">>, FALSE, "none", <<"initializer_" \o st.k, "second_of_four">>))
         [] st.fam = "files" -> \A pert \in {"none", "truncate", "overwrite"} : P(FileCase(st.f, pert))
         [] st.fam = "random" -> P(RandomCase(st.seed))
         [] st.fam = "unknown" ->
